@@ -26,6 +26,9 @@ pub enum Decision {
     T { dt: u64 },
     /// step the wall clock backwards by `back` ms (no true time passes)
     J { back: u64 },
+    /// an observer request issued by the host at this moment, whatever the client script is waiting
+    /// for: k selects the kind (statuses, worker info, process info, the result of some process)
+    N { k: u64 },
 }
 
 pub const ALL: usize = usize::MAX / 2;
